@@ -149,7 +149,7 @@ def run_correspondence(ck, consts):
                 c["id"] = 1000000 + i
                 c["coq"] = re.sub(r"^Case \d+ ", "Case %d " % c["id"], c["coq"])
                 if c.get("coqj"):
-                    c["coqj"] = re.sub(r"^([JDM])Case \(Case \d+ ", r"\1Case (Case %d " % c["id"], c["coqj"])
+                    c["coqj"] = re.sub(r"^([JDMW])Case \(Case \d+ ", r"\1Case (Case %d " % c["id"], c["coqj"])
                 c["class"] = "corpus:" + c["class"]
             cases += cs
     if ck.replay:
@@ -167,7 +167,7 @@ def run_correspondence(ck, consts):
                     c["id"] = 2000000 + i
                     c["coq"] = re.sub(r"^Case \d+ ", "Case %d " % c["id"], c["coq"])
                     if c.get("coqj"):
-                        c["coqj"] = re.sub(r"^([JDM])Case \(Case \d+ ", r"\1Case (Case %d " % c["id"], c["coqj"])
+                        c["coqj"] = re.sub(r"^([JDMW])Case \(Case \d+ ", r"\1Case (Case %d " % c["id"], c["coqj"])
                 cases += cs
     n = ck.n(400, 6000)
     outp = os.path.join(ck.work, "decode.jsonl")
@@ -201,7 +201,8 @@ def run_correspondence(ck, consts):
     shs = [("plain", ks) for ks in shards([c for c in cases if not c.get("coqj")])] + \
           [("jcase", ks) for ks in shards([dict(c, coq=c["coqj"]) for c in jcases if c.get("tree_kind") == "jcase"], max_n=80)] + \
           [("dcase", ks) for ks in shards([dict(c, coq=c["coqj"]) for c in jcases if c.get("tree_kind") == "dcase"], max_n=200)] + \
-          [("mcase", ks) for ks in shards([dict(c, coq=c["coqj"]) for c in jcases if c.get("tree_kind") == "mcase"], max_n=200)]
+          [("mcase", ks) for ks in shards([dict(c, coq=c["coqj"]) for c in jcases if c.get("tree_kind") == "mcase"], max_n=200)] + \
+          [("wcase", ks) for ks in shards([dict(c, coq=c["coqj"]) for c in jcases if c.get("tree_kind") == "wcase"], max_n=200)]
 
     def eval_shard(ix):
         i, (kind, ks) = ix
@@ -211,13 +212,16 @@ def run_correspondence(ck, consts):
             m, v, out = eval_two(ck, "C03_decodej_%d" % i, JHEADER, "jcase", ks, "jc_check_all")
         elif kind == "mcase":
             m, v, out = eval_two(ck, "C03_decodem_%d" % i, DHEADER, "mcase", ks, "mc_check_all")
+        elif kind == "wcase":
+            m, v, out = eval_two(ck, "C03_decodew_%d" % i, WHEADER, "wcase", ks, "wc_check_all")
         else:
             m, v, out = eval_two(ck, "C03_decoded_%d" % i, DHEADER, "dcase", ks, "dc_check_all")
         return m, v, ([] if m is not None else None), out
     with ThreadPoolExecutor(max_workers=4) as ex:
         results = list(ex.map(eval_shard, enumerate(shs)))
     for kind, key in (("jcase", "loki_json_documents_walked_in_the_model"), ("dcase", "datadog_log_documents_walked_in_the_model"),
-                      ("mcase", "datadog_metric_documents_walked_in_the_model")):
+                      ("mcase", "datadog_metric_documents_walked_in_the_model"),
+                      ("wcase", "cloudflare_and_elastic_bulk_lines_walked_in_the_model")):
         ks = [c for c in jcases if c.get("tree_kind") == kind]
         ck.extra[key] = {"written": sum(1 for c in ks if not c.get("damage")), "damaged": sum(1 for c in ks if c.get("damage")),
                          "damaged_and_rejected": sum(1 for c in ks if c.get("damage") and c["obs"]["err"]),
@@ -350,6 +354,10 @@ JHEADER = ("From Coq Require Import List ZArith NArith Bool String Uint63.\n"
 
 DHEADER = ("From Coq Require Import List ZArith NArith Bool String Uint63.\n"
            "From Qryn Require Import model.Decode model.LokiLabels model.LokiTime model.LokiJson model.DatadogJson.\n"
+           "Import ListNotations.\nOpen Scope string_scope.\nOpen Scope Z_scope.\n")
+
+WHEADER = ("From Coq Require Import List ZArith NArith Bool String Uint63.\n"
+           "From Qryn Require Import model.Decode model.LokiLabels model.LokiTime model.LokiJson model.NdjsonWalk.\n"
            "Import ListNotations.\nOpen Scope string_scope.\nOpen Scope Z_scope.\n")
 
 LHEADER = ("From Coq Require Import List ZArith NArith Bool String Uint63.\n"
@@ -623,9 +631,13 @@ def run(ck):
     if not ck.coq_props():
         # a proof or a constant no longer fits the source: the models may still build, and a concrete failing input is worth more
         # than the broken proof alone
-        ok, out = ck.coq_make(["model/DatadogJson.vo"])
+        ok, out = ck.coq_make(["model/DatadogJson.vo", "model/NdjsonWalk.vo"])
         if not ok:
             return
+    ok, out = ck.coq_make(["model/NdjsonWalk.vo"])
+    if not ok:
+        ck.obligation("model/NdjsonWalk.v builds", False, out[-1500:])
+        return
     if not ck.quick():
         ck.coqchk(["Qryn.props.C03"])
     if not ck.go_build("decode"):
